@@ -9,9 +9,9 @@ def fam_d15(case, failure):
     forgotten): `assert len(imports) >= 1` in auto_import_symbol."""
     if failure.get("what") != "exception escaped instead of a result" or failure.get("exc") != "AssertionError":
         return False
-    if "__forget_imports__" not in case["db"]:
+    if "__forget_imports__" not in G.full_db_text(case):
         return False
-    tab = G.db_lookup_table(case["db"], keep_empty=True)
+    tab = G.db_lookup_table(G.full_db_text(case), keep_empty=True)
     missing = failure.get("missing")
     if not isinstance(missing, list):
         return False
